@@ -100,7 +100,7 @@ func ModelEqual(a, b cty.Value) bool {
 // DeepMarks collects every mark found anywhere in v (through public API only:
 // shallow Unmark at every level).
 func DeepMarks(v cty.Value) cty.ValueMarks {
-	out := cty.NewValueMarks()
+	out := cty.ValueMarks{}
 	deepMarks(v, out)
 	return out
 }
